@@ -109,8 +109,20 @@ def agg_lists(env):
         [("basic", 2, 0), ("basic", 3, 0), ("basic", R_ - 5, 0), ("basic", k3, 2)],
         [("pop", k1, 2), ("pop", R_ - k1, 2), "INF", ("pop", k2, 2), ("pop", k2, 2)],
         [("basic", k1, 0), ("basic", k2, 1), ("basic", R_ - k1, 0)],
+        # encodings of special curve points (y.c1 = 0, y at the sign boundary)
+        [("SPECIAL", 0)], [("SPECIAL", 1)], [("SPECIAL", 2), ("basic", k1, 0)], [("SPECIAL", 3)], [("SPECIAL", 4), ("SPECIAL", 4)],
+        [("SPECIAL", 5), ("SPECIAL", 0)],
     ]
     return L
+
+
+def _special_points():
+    """curve points of E'(Fp2) with y.c1 = 0 / y at the sign boundary (cube-root construction); not
+    subgroup points - Aggregate only decodes and adds"""
+    from ..model import zcash
+
+    H_ = zcash.HALF
+    return zcash.g2_points_with_y([(H_ + 1, 0), (3, 0), (H_, 0), (5, H_), (2, H_ + 1), (0, 7)])
 
 
 def agg_case(i, env):
@@ -118,7 +130,10 @@ def agg_case(i, env):
     lst = agg_lists(env)[i]
     sigs = []
     for it in lst:
-        if it == "INF":
+        if isinstance(it, tuple) and it[0] == "SPECIAL":
+            sp = _special_points()
+            sigs.append(MB.g2_bytes(sp[it[1] % len(sp)]))
+        elif it == "INF":
             sigs.append(MB.g2_bytes(None))
         else:
             s, sk, mi = it
